@@ -1064,3 +1064,32 @@ Definition obs_edgesets (l : list eset) : list (list Z) :=
 
 Definition model_edgesets (L : Z) (ns : list node) (es : list edge) : res (list (list Z)) :=
   do q <- load L ns es; do l <- edgesets L (q_I q) (q_O q); Ok (obs_edgesets l).
+
+(* ------------------------------------------------------------------------------------ *)
+(* Python TreeSequence.coiterate (trees.py 5164-5199) on the two breakpoint lists         *)
+(* ------------------------------------------------------------------------------------ *)
+(* tree k of a sequence has interval [bps[k], bps[k+1]); [r1]/[r2] are the right ends of the
+   current and all later trees, [lo] the left end and [k] the index of the current tree.
+   `next(trees, None)` past the last tree gives None: the next use is Err 5. *)
+Fixpoint coiter_loop (fuel : nat) (L right : Z) (r1 r2 : list Z) (k1 lo1 k2 lo2 : Z)
+  : res (list (list Z)) :=
+  if right =? L then Ok [] else
+  match fuel with
+  | O%nat => Fuel
+  | S f =>
+      match r1, r2 with
+      | a :: r1', b :: r2' =>
+          let right' := Z.min a b in
+          let adv1 := a =? right' in
+          let adv2 := b =? right' in
+          do rest <- coiter_loop f L right'
+                       (if adv1 then r1' else r1) (if adv2 then r2' else r2)
+                       (if adv1 then k1 + 1 else k1) (if adv1 then a else lo1)
+                       (if adv2 then k2 + 1 else k2) (if adv2 then b else lo2);
+          Ok ([right; right'; k1; lo1; a; k2; lo2; b] :: rest)
+      | _, _ => Err 5
+      end
+  end.
+
+Definition coiterate (L : Z) (bps1 bps2 : list Z) : res (list (list Z)) :=
+  coiter_loop (length bps1 + length bps2) L 0 (tl bps1) (tl bps2) 0 (hd 0 bps1) 0 (hd 0 bps2).
